@@ -468,7 +468,7 @@ def runNumeric (lines : List String) : IO Unit := do
           a ← fail a "C19" s!"stripe rule: after truncation G_{i}{j}(iw_{n}) = ({v.re},{v.im}) is not the sum over the block pairs with a retained block ({gk.re},{gk.im})"
       if !a.truncated then
         if !closeC v g (budget + 1.0e-9 * (1.0 + tot)) then
-          a ← fail a "C01" s!"G_{i}{j}(iw_{n}) = ({v.re},{v.im}) differs from the definition ({g.re},{g.im}) by {(v - g).abs} > budget {budget}"
+          a ← fail a "C01" s!"G_{i}{j}(iw_{n}) = ({v.re},{v.im}) differs from the definition ({g.re},{g.im}) by {sci (v - g).abs} > budget {sci budget} + 1e-9*(1+{sci tot})"
         if v.re.toBits != vc.re.toBits || v.im.toBits != vc.im.toBits then
           if !closeC v vc (1.0e-12 * (1.0 + tot)) then
             a ← fail a "C01" s!"G_{i}{j}(iw_{n}) from the container ({vc.re},{vc.im}) differs from the stand-alone object ({v.re},{v.im})"
@@ -515,9 +515,15 @@ def runNumeric (lines : List String) : IO Unit := do
       let g := specGtau s w ci cj tv
       let v := parseC r1 i1
       a := a.bump "gf_tau_values"
+      -- documented term reduction: residues below 1e-8 are dropped, like poles merged (shift < 1e-8, sensitivity <= beta)
+      let rb := residueBudget s w ci cj
+      let gpoles := sortedPoles s fun n m => (mget ci n m).abs > 0.0 && (mget cj n m).abs > 0.0
+      let anyNear := (List.range gpoles.size).any fun k => k + 1 < gpoles.size &&
+        (let dd := gpoles[k+1]! - gpoles[k]!; dd > 1.0e-13 * (1.0 + Float.abs gpoles[k]!) && dd < 2.0e-8)
+      let tauTol := 1.0e-7 + rb + (if anyNear then 2.0e-8 * s.beta * 4.0 else 0.0)
       if !a.truncated then
-        if !closeC v g 1.0e-7 then
-          a ← fail a "C11" s!"G_{i}{j}(tau={tv}) = ({v.re},{v.im}) differs from -<c(tau)c+> = ({g.re},{g.im})"
+        if !closeC v g tauTol then
+          a ← fail a "C11" s!"G_{i}{j}(tau={tv}) = ({v.re},{v.im}) differs from -<c(tau)c+> = ({g.re},{g.im}) by {sci (v - g).abs}"
         if i == j && v.re > 1.0e-9 then a ← fail a "C11" s!"G_{i}{i}(tau={tv}) = {v.re} is positive"
         a := remember a s!"gftau {i} {j} {tau}" [v]
         -- jump and density at the two ends
@@ -525,8 +531,8 @@ def runNumeric (lines : List String) : IO Unit := do
           match lookupSeen a s!"gftau {i} {j} {hexOfFloat 0.0}" with
           | some [g0] =>
             let want := if i == j then -1.0 else 0.0
-            if Float.abs ((g0 + v).re - want) > 1.0e-7 || Float.abs (g0 + v).im > 1.0e-7 then
-              a ← fail a "C11" s!"G_{i}{j}(0+) + G_{i}{j}(beta-) = {(g0 + v).re} instead of {want}"
+            if Float.abs ((g0 + v).re - want) > 2.0 * tauTol || Float.abs (g0 + v).im > 2.0 * tauTol then
+              a ← fail a "C11" s!"G_{i}{j}(0+) + G_{i}{j}(beta-) = {(g0 + v).re} instead of {want} (off by {sci (Float.abs ((g0 + v).re - want))}, imaginary part {sci (g0 + v).im})"
           | _ => pure ()
           if i == j then
             match lookupSeen a s!"occ {i}" with
@@ -628,7 +634,7 @@ def runNumeric (lines : List String) : IO Unit := do
           if closeC v0 (x - sp.filtered) tol then
             a ← fail a "C14" s!"residue filter drops {sp.filtered.abs} of chi_({p}{q})({r}{t})(iW_{n}): returned ({v0.re},{v0.im}), definition ({x.re},{x.im})"
           else
-            a ← fail a "C14" s!"chi_({p}{q})({r}{t})(iW_{n}) = ({v0.re},{v0.im}) differs from the definition ({x.re},{x.im}) by {(v0 - x).abs}"
+            a ← fail a "C14" s!"chi_({p}{q})({r}{t})(iW_{n}) = ({v0.re},{v0.im}) differs from the definition ({x.re},{x.im}) by {sci (v0 - x).abs} (tolerance {sci tol}, filtered {sci sp.filtered.abs})"
         -- disconnected part: beta <A><B> at n = 0 only, the same for the three ways of supplying the averages
         let aA := traceWeighted w A; let aB := traceWeighted w B
         let d := if int! n == 0 then aA * aB * ofR s.beta else czero
@@ -679,7 +685,7 @@ def runNumeric (lines : List String) : IO Unit := do
           if closeC v0 (x - sp.filtered) tol then
             a ← fail a "C14" s!"residue filter drops {sp.filtered.abs} of chi_AB(tau={fOf tau}): returned ({v0.re},{v0.im}), <A(tau)B> = ({x.re},{x.im})"
           else
-            a ← fail a "C14" s!"chi_AB(tau={fOf tau}) = ({v0.re},{v0.im}) differs from <A(tau)B> = ({x.re},{x.im})"
+            a ← fail a "C14" s!"chi_AB(tau={fOf tau}) = ({v0.re},{v0.im}) differs from <A(tau)B> = ({x.re},{x.im}) by {sci (v0 - x).abs} (tolerance {sci tol})"
         let aA := traceWeighted w A; let aB := traceWeighted w B
         if !closeC (v0 - v1) (aA * aB) 1.0e-9 then
           a ← fail a "C14" s!"tau-domain subtraction differs from <A><B>"
